@@ -65,6 +65,10 @@ CHECKS = {
    text="TLC checks ClientSurvive.tla for every bad-frame class x position: the reader survives, call 1 ends (liveness) and never with a foreign answer, the later call completes, the client closes; the sticky-decoder and double-signal defects yield counterexamples; every scenario is executed against the real Streamable client (JSON answers, SSE answers, listening stream), the legacy SSE client and the stdio client (scripted child) with concrete bytes per class (garbage, non-JSON, wrong kind, unknown id, id of the wrong type, 100 KiB / 8 MiB frames, blank lines, comments, neither / both of result and error, invalid UTF-8, repeated endpoint event, truncated JSON); observed: how call 1 and the later call end, CPU burnt while idle (spin detector with repeated windows), Close(), delivery of a later well-formed notification; a crash of the client process is bisected; the scenario logs are validated by TLC against TraceClientSurvive.",
    note="Trusted: TLC, the scripted servers / child, process CPU time as spin signal (> 150 ms in each of up to 4 consecutive 300 ms idle windows). Call deadlines 1.5 s / 2.5 s.",
    technique="TLA+ model checking (TLC, incl. liveness) + scripted adversarial servers against 5 client configurations + TLC trace validation"),
+ "C08": dict(level="model_checking", design="DESIGN.md §5 C08",
+   text="TLC checks CallEnds.tla (1..3 pending calls; fault kind close / reset / stall / exit / kill / client Close x boundary of the exchange; context end): every call ends (liveness under weak fairness), a result is returned only when the complete answer had arrived, an error has a cause, the reader stays alive while the connection is up, nothing is held after Close; the leak-on-early-return variant yields a counterexample. PeerGone.tla (server side): stream entry, handler invocation and pending entry of a vanished peer are released; with a handler context nothing cancels they never are (counterexample). Every (fault, boundary) initial state is executed against the real Streamable client (JSON answers, SSE answers with and without notification handlers), the legacy SSE client and the stdio client with 1..3 pending calls and three context kinds; the peer is a raw TCP server that cuts the answer at the boundary / at sampled byte offsets / in the middle of a half-read request and then sends FIN, RST or nothing, or a scripted child that exits, kills itself or goes silent; Close() while calls are pending, and - with the reader parked by a hook between looking up a call's channel and handing the answer over - cancel and Close racing a late answer. Observed: outcome and time of each call relative to fault and context end (1 s bound); after Close: library goroutines, net/http connection goroutines, descriptors, child process, pending table versus the state before the client existed; a later call after a lost race. Server side: a raw peer brings real Streamable (JSON / SSE) and legacy servers into each PeerGone state and closes / resets all its connections; streams, pending entries, handler invocations and library goroutines must be back within 2 s. All logs are validated by TLC against TraceCallEnds / TracePeerGone.",
+   note="Trusted: TLC, the raw fault server and scripted child, /proc/self/fd and runtime.Stack as leak probes, wall-clock bounds (1 s promptness, 2 s release; 1.5 s settle after Close). Byte offsets are sampled (24 per client configuration in the thorough tier), not exhaustive. A stdio child that closes stdout but stays alive is outside the statement.",
+   technique="TLA+ model checking (TLC, incl. liveness) + fault-injecting raw TCP server / scripted child against 5 client configurations and 3 server kinds + hook-gated race schedules + TLC trace validation"),
 }
 NA = {
  "C20": "data-race freedom is a statement about individual memory accesses under the Go memory model; an abstract state-machine specification has no notion of them (see DESIGN.md §6)",
